@@ -189,19 +189,19 @@ def oracle_binary_kinds(ctx):
     if os.path.exists(EVTX):
         data = open(EVTX, 'rb').read()
         variants = [[], ['-a', '2000-01-01T00:00:00', '-b', '2030-01-01T00:00:00'], ['-a', '2023-03-10T00:00:00']]
-        e, ne = compare_packed(ctx, 'evtx', data, 'c05.evtx', variants, fails)
+        e, ne = compare_packed(ctx, 'evtx', data, 'c05.evtx', variants, fails, kinds=KINDS + ('lz4f',))
         ev += e
         samples.append({'oracle': 'C05 evtx', 'file_bytes': len(data), 'nonempty_variants': ne})
     if os.path.exists(JOURNAL_GZ):
         data = gzip.open(JOURNAL_GZ, 'rb').read()
         variants = [[], ['-a', '2023-04-02T07:06:50', '-b', '2023-04-02T07:07:30'], ['-b', '2023-04-02T07:06:50']]
-        e, ne = compare_packed(ctx, 'journal', data, 'c05.journal', variants, fails)
+        e, ne = compare_packed(ctx, 'journal', data, 'c05.journal', variants, fails, kinds=KINDS + ('lz4f',))
         ev += e
         samples.append({'oracle': 'C05 journal', 'file_bytes': len(data), 'nonempty_variants': ne})
         if ne == 0:
             fails.append({'signature': 'oracle:journal-plain-printed-nothing', 'detail': 'journal sample printed nothing'})
     return {'evaluations': ev, 'distinct_nontrivial': ev, 'failures': fails, 'samples': samples,
-            'rule': 'synthesised wtmp files, the shipped .evtx sample and a shipped journal, each packed as gz/bz2/xz/lz4/tar: stdout and exit '
+            'rule': 'synthesised wtmp files, the shipped .evtx sample and a shipped journal, each packed as gz/bz2/xz/lz4/tar (evtx and journal also as an lz4 frame whose writer flushed every 40 000 bytes: short non-final blocks): stdout and exit '
                     'status must equal the plain file\'s, without a window, with -a/-b, at another block size; distinct = runs'}
 
 
